@@ -12,7 +12,9 @@
 (* compared with the state of the specification after the step.            *)
 (*                                                                         *)
 (* Input (VERIF_TRACE, NDJSON), one search per line:                       *)
-(*   [id, n, units, cons, status, ev]                                      *)
+(*   [id, n, units, cons, status, sts, ev]                                 *)
+(* (sts: the replies of the Solve calls of a history of Assume / Solve     *)
+(* rounds, ev then holds the events of all rounds)                         *)
 (* n, units, cons: the problem the solver was built on (the parsed problem *)
 (* as dumped through its public fields), status: the reply of Solve, wb:   *)
 (* the hook events.                                                        *)
@@ -41,12 +43,11 @@ VARIABLES ci,     \* index of the current search
           pend,   \* a clause was learned: the code has yet to report the backtrack and the assertion
           bad,    \* rejected steps
           nev     \* events consumed or skipped (acceptance count)
-tvars == <<vars, ci, wi, pend, bad, nev>>
+tvars == <<vars, ci, wi, pend, bad, nev>>      \* (vars of PBCDCL includes asm and nround)
 
 Case == Cases[ci]
 Ev == Case.ev[wi]
 HasEv == ci >= 1 /\ ci <= Len(Cases) /\ wi <= Len(Case.ev)
-IsEv(k) == HasEv /\ Ev.k = k
 Consume == wi' = wi + 1 /\ nev' = nev + 1 /\ UNCHANGED <<ci, bad>>
 
 RangeS(s) == {s[i] : i \in 1..Len(s)}
@@ -67,20 +68,23 @@ TrailOf(ls, i) == IF i > Len(ls) THEN <<>>
                   ELSE <<[lit |-> ls[i], lvl |-> 0, reason |-> UnitC(ls[i])]>> \o TrailOf(ls, i + 1)
 RECURSIVE PadTrail(_, _)
 PadTrail(lo, hi) == IF lo > hi THEN <<>> ELSE <<[lit |-> lo, lvl |-> 0, reason |-> UnitC(lo)]>> \o PadTrail(lo + 1, hi)
+PadDone == ci >= 1 /\ ci <= Len(Cases) /\ \A v \in Pad(Case) : IsTrue(v)
+IsEv(k) == HasEv /\ Ev.k = k /\ PadDone
 NPad == (N - Case.n) - (Len(Case.units) - Cardinality(RangeS(Case.units)))
 
 Load(k) == LET c == Cases[k] IN
   /\ F' = {ConsOf(c.cons[i]) : i \in 1..Len(c.cons)} \cup {UnitC(c.units[i]) : i \in 1..Len(c.units)} \cup {UnitC(v) : v \in Pad(c)}
-  /\ L' = {} /\ confl' = NONE /\ status' = "Indet" /\ nlearn' = 0 /\ nrestart' = 0
+  /\ L' = {} /\ confl' = NONE /\ status' = "Indet" /\ nlearn' = 0 /\ nrestart' = 0 /\ asm' = {} /\ nround' = 0
   /\ trail' = PadTrail(c.n + 1, N) \o TrailOf(c.units, 1)
   /\ pend' = FALSE
 
 TInit == /\ ci = 0 /\ wi = 1 /\ bad = <<>> /\ nev = 0 /\ pend = FALSE
          /\ F = {} /\ L = {} /\ trail = <<>> /\ confl = NONE /\ status = "Indet" /\ nlearn = 0 /\ nrestart = 0
+         /\ asm = {} /\ nround = 0
 
 (* the scalars the hook logs with an event: level (code level = level here + 1), trail length *)
 LvlIs(k) == CurLvl' = k - 1
-TlIs == Len(trail') - NPad = Ev.tl
+TlIs == nround > 0 \/ Len(trail') - NPad = Ev.tl     \* (after an Assume the code may hold a fact twice)
 
 (* ---- one action of PBCDCL per event ----------------------------------------------------------- *)
 TDecide == /\ IsEv("assign") /\ Ev.dec /\ Ev.lvl >= 2 /\ ~pend
@@ -116,14 +120,14 @@ TLearnTop == /\ HasEv /\ Ev.k \in {"learn", "learn-empty"} /\ CurLvl = 0 /\ conf
 (* the code reports the backtrack and the assertion of the learned clause separately: both must  *)
 (* agree with the state Backjump produced                                                        *)
 TBackAfterLearn == /\ IsEv("backtrack") /\ pend
-                   /\ CurLvl = Ev.lvl - 1 /\ Len(trail) - 1 - NPad = Ev.tl
+                   /\ CurLvl = Ev.lvl - 1 /\ (nround > 0 \/ Len(trail) - 1 - NPad = Ev.tl)
                    /\ Consume /\ UNCHANGED <<vars, pend>>
 TAssert == /\ IsEv("assign") /\ pend
-           /\ trail[Len(trail)].lit = Ev.lit /\ CurLvl = Ev.lvl - 1 /\ Len(trail) - NPad = Ev.tl
+           /\ trail[Len(trail)].lit = Ev.lit /\ CurLvl = Ev.lvl - 1 /\ (nround > 0 \/ Len(trail) - NPad = Ev.tl)
            /\ (~Ev.dec => ConsOf(Ev) = trail[Len(trail)].reason)
            /\ pend' = FALSE /\ Consume /\ UNCHANGED vars
 
-TRestart == /\ IsEv("backtrack") /\ ~pend /\ Ev.lvl = 1
+TRestart == /\ IsEv("backtrack") /\ ~pend /\ Ev.lvl = 1 /\ (nround = 0 \/ CurLvl > 0)
             /\ IF CurLvl > 0 THEN Restart ELSE UNCHANGED vars
             /\ TlIs
             /\ Consume /\ UNCHANGED pend
@@ -134,6 +138,24 @@ TForget == /\ IsEv("delete") /\ ~pend /\ WellFormed(Ev)
            /\ Forget(ConsOf(Ev))
            /\ Consume /\ UNCHANGED pend
 
+(* ---- rounds under assumptions ----------------------------------------------------------------- *)
+(* "assume": Solver.Assume starts a round (NewRound); the code then reports the trail being emptied,  *)
+(* the facts being put back (each is forced by a unit constraint of the database: Propagate) and the   *)
+(* assumed literals (AssumeLit), all as assignments at the top level without a reason.                *)
+TNewRound == /\ IsEv("assume") /\ ~pend
+             /\ NewRound(RangeS(Ev.lits))
+             /\ Consume /\ UNCHANGED pend
+TPad == /\ ci >= 1 /\ ci <= Len(Cases) /\ ~PadDone /\ CurLvl = 0 /\ confl = NONE /\ status = "Indet"
+        /\ LET v == CHOOSE v \in Pad(Case) : ~IsTrue(v) IN Propagate(UnitC(v), v)
+        /\ UNCHANGED <<ci, wi, pend, bad, nev>>
+TBackRound == /\ IsEv("backtrack") /\ ~pend /\ nround > 0 /\ CurLvl = 0 /\ confl = NONE
+              /\ Consume /\ UNCHANGED <<vars, pend>>
+TTopAssign == /\ IsEv("assign") /\ Ev.dec /\ Ev.lvl = 1 /\ ~pend /\ nround > 0 /\ CurLvl = 0
+              /\ \/ IsTrue(Ev.lit) /\ UNCHANGED vars                          \* a fact stated twice
+                 \/ UnitC(Ev.lit) \in DB /\ Propagate(UnitC(Ev.lit), Ev.lit)    \* a fact (problem unit, learned unit)
+                 \/ UnitC(Ev.lit) \notin DB /\ AssumeLit(Ev.lit)                \* an assumption of this round
+              /\ Consume /\ UNCHANGED pend
+
 (* Unsat: either the conflict under analysis is at the top level (Fail), or the code found a constraint *)
 (* falsified while asserting a learned fact at the top level and reports only the verdict:              *)
 (* a silent Conflict step first                                                                        *)
@@ -142,13 +164,15 @@ TTopConflict == /\ IsEv("unsat") /\ confl = NONE /\ CurLvl = 0 /\ ~NoConfl
                 /\ UNCHANGED <<ci, wi, pend, bad, nev>>
 TUnsat == /\ IsEv("unsat") /\ Fail
           /\ Consume /\ UNCHANGED pend
+Reply == IF nround = 0 THEN Case.status ELSE Case.sts[nround]
 TEnd == /\ IsEv("solve-end")
-        /\ \/ Case.status = "SAT" /\ Succeed
-           \/ Case.status = "UNSAT" /\ status = "Unsat" /\ UNCHANGED vars
+        /\ \/ Reply = "SAT" /\ Succeed
+           \/ Reply = "UNSAT" /\ status = "Unsat" /\ UNCHANGED vars
         /\ Consume /\ UNCHANGED pend
 
 Match == \/ TDecide \/ TProp \/ TConflict \/ TExplain \/ TMinimise \/ TLearn \/ TLearnTop
          \/ TBackAfterLearn \/ TAssert \/ TRestart \/ TMark \/ TForget \/ TTopConflict \/ TUnsat \/ TEnd
+         \/ TNewRound \/ TPad \/ TBackRound \/ TTopAssign
 
 (* no action of the specification explains the next event: record it, abandon this search *)
 Reject == /\ HasEv /\ ~ENABLED Match
